@@ -35,3 +35,10 @@
 (declare-fun bitxor (Int Int) Int)
 (declare-fun shl (Int Int) Int)
 (declare-fun shr (Int Int) Int)
+; UTF-8 decoding as done by `for i, r := range s` (assumed contract of the Go runtime)
+(declare-fun runeAt (Str Int) Int)      ; rune decoded at byte position i (0xFFFD for invalid encodings)
+(declare-fun runeWidth (Str Int) Int)   ; bytes consumed at position i
+(assert (forall ((s Str) (i Int)) (! (and (<= 1 (runeWidth s i)) (<= (runeWidth s i) 4)) :pattern ((runeWidth s i)))))
+(assert (forall ((s Str) (i Int)) (! (and (<= 0 (runeAt s i)) (<= (runeAt s i) 1114111)) :pattern ((runeAt s i)))))
+(assert (forall ((s Str) (i Int)) (! (=> (< (sat s i) 128) (and (= (runeAt s i) (sat s i)) (= (runeWidth s i) 1))) :pattern ((runeAt s i)))))
+(assert (forall ((s Str) (i Int)) (! (=> (and (<= 0 i) (< i (slen s))) (<= (+ i (runeWidth s i)) (slen s))) :pattern ((runeWidth s i)))))
